@@ -152,7 +152,7 @@ def _iso_spec(r, variant):
     if r.random() < 0.35:
         # stored in degrees Celsius (the value in the file is the one in the isotherm's own unit)
         spec["temperature_unit"] = "°C"
-        spec["temperature"] = round(spec["temperature"] - 273.15, 2)
+        spec["temperature"] = round(spec["temperature"] - 273.15, 2) if r.random() < 0.6 else 0.0  # (ice bath: a stored value of zero)
     if kind.startswith("point"):
         n = r.randint(2, 12)
         p, l, b = gen.point_data(r, n, two_branches=(kind == "point-des" and n >= 4))
@@ -410,7 +410,10 @@ def _run_history(case, ctx):
                     target = _build_iso(spec) if (how == "object" and spec is not None) else iso_id
                     out = _call(S.isotherm_delete_db, target, db_path=db, verbose=False)
             elif op == "iso_get":
-                crit = r.choice([None, None, {"material": r.choice(MAT_NAMES)}, {"adsorbate": r.choice(ADS_NAMES)}, {"material": r.choice(MAT_NAMES), "adsorbate": r.choice(ADS_NAMES)}, {"iso_type": "modelisotherm"}])
+                temps = sorted({row["temperature"] for row in model.d["isotherms"].values()}) or [0.0]
+                tc = r.choice(temps + [0.0, 0])
+                crit = r.choice([None, None, {"material": r.choice(MAT_NAMES)}, {"adsorbate": r.choice(ADS_NAMES)}, {"material": r.choice(MAT_NAMES), "adsorbate": r.choice(ADS_NAMES)}, {"iso_type": "modelisotherm"},
+                                 {"temperature": tc}, {"temperature": tc, "material": r.choice(MAT_NAMES)}])
                 rec.update(criteria=crit)
                 out = _call(S.isotherms_from_db, criteria=crit, db_path=db, verbose=False)
                 expected = "ok"
@@ -560,7 +563,12 @@ def _judge(ctx, rec, out, expected, model, before, db, extra_check, history):
             ctx.violation(key, "an uploaded isotherm does not come back equal", rec=rec, **info)
     elif what == "retrieved":
         crit = arg or {}
-        exp_ids = sorted(i for i, row in model.d["isotherms"].items() if all(str(row.get(k)) == str(v) for k, v in crit.items()))
+        def _m(a, b):
+            if isinstance(a, (int, float)) and isinstance(b, (int, float)) and not isinstance(a, bool) and not isinstance(b, bool):
+                return float(a) == float(b)
+            return str(a) == str(b)
+
+        exp_ids = sorted(i for i, row in model.d["isotherms"].items() if all(_m(row.get(k), v) for k, v in crit.items()))
         got_rows = out[1]
         ctx.case(["retrieve", sorted(crit)])
         if len(got_rows) != len(exp_ids):
